@@ -37,6 +37,10 @@ claim("C07", "The 16 version bytes of the header are symbolic: for every version
 claim("C11", "Sufficient condition decided with a write-set monitor: on every path of every read API (Get, GetID, RangeGet, Search, GetI32, Stat, ScanFrom, NewIter/next, String, Marshal down to the codec stub) with symbolic tries and queries no store hits an object reachable from the shared *SlimTrie that existed before the call, hence no data race and schedule-independent results; two interleaved iterators yield what each yields alone. A monitor finding is confirmed natively by running the call in two goroutines under go test -race before it is reported.", "§7 C11", note="Interleavings as such are not enumerated; golang/protobuf's Marshal (writes XXX_sizecache atomically) is trusted.", technique="bounded symbolic execution of the real code with a heap write-set monitor; SMT decides branches; findings confirmed with go test -race")
 claim("C20", "NewSlimTrie performs no store into the caller's key slice, value slice or option structs (monitor + equality, all 18 option cases incl. nil fields); Unmarshal performs no store into the input buffer, the loaded trie cannot reach it on the heap (codec stub aliasing pessimistically) and answers are unchanged after it is overwritten with symbolic bytes; Marshal output is unreachable from the trie and overwriting it changes nothing.", "§7 C20", note="A-PB: proto.Marshal returns fresh memory.")
 
+claim("C12", "Symbolic records (keys, int64 offsets) indexed by the real NewSlimIndex with a key-verifying reader: Get (strictly increasing offsets) and RangeGet (non-decreasing block offsets, every block structure a model) return the stored record exactly for indexed keys and not-found for every other symbolic query, within n<=3 (quick).", "§7 C12")
+claim("C16", "Typed arrays built by the real constructors from symbolic ascending indexes (enumerated word, symbolic bit) and symbolic elements over the full element range answer typed Get / raw GetBytes / generic Array.Get as a sparse map for a symbolic probe inside the bitmap span, also after a round trip through the codec stub (A-PB) into the typed and the generic type; invalid index lists are rejected with their dedicated errors and build nothing.", "§7 C16", note="encoding/binary Read/Write/Size are modelled (layout from go/types): generic decoding rests on that model.")
+claim("C17", "Relational size check only (level other): see evidence coverage.explanation. The 8n+256 bound for large n and the exact serialized size are outside what a solver-based check of this code can reach.", "§7 C17", category="other", technique="bounded symbolic execution of the real builder; a structural size measure compared by the solver; real sizes on native replays")
+
 def main():
     checks = []
     for pid in ALL:
